@@ -40,6 +40,7 @@ META = dict(
              'Observed: the processor view derives it from all members of the full graph, the graph view from the members present',
              '"applying a set yields an instance with precisely those connection edges" is a concrete auxiliary check, not a solver verdict'],
     stubs=['EncoderSelector.get_best_assignment_manager -> default lazy encoder', 'numba kernels executed from .py_func while symbolic',
+           'histories: all scenario instances are derived before any is examined; one processor decodes <= 36 listed designs in order and in reverse (auxiliary, concrete)',
            'XDG_CACHE_HOME redirected'],
     assumptions=['connector semantics as documented: allowed degrees = list or range; grouping connector = sums of present '
                  'members; repeated connections allowed iff both ends allow them (a grouping connector allows them if any '
